@@ -30,6 +30,8 @@ pub struct EdgeInfo {
     pub ty: Ty,
     pub ord: Ord_,
     pub card: Card,
+    /// statically known to never carry an item (`source_iter` of an empty collection)
+    pub empty: bool,
 }
 
 impl EdgeInfo {
@@ -77,7 +79,7 @@ fn analyze_opt(p: &Prog, closed: bool) -> Result<Analysis, String> {
     // pre-seed the outputs of cycle-closing defer_ticks
     for (i, node) in p.nodes.iter().enumerate() {
         if let Op::DeferTick { back: Some(t), .. } = &node.op {
-            outs[i] = Some(vec![EdgeInfo { ty: t.clone(), ord: Ord_::Bag, card: Card::Many }]);
+            outs[i] = Some(vec![EdgeInfo { ty: t.clone(), ord: Ord_::Bag, card: Card::Many, empty: false }]);
         }
     }
     for (i, node) in p.nodes.iter().enumerate() {
@@ -185,7 +187,7 @@ fn analyze_opt(p: &Prog, closed: bool) -> Result<Analysis, String> {
 pub fn node_out(p: &Prog, idx: usize, op: &Op, ins: &[EdgeInfo]) -> Result<Vec<EdgeInfo>, String> {
     let in_tys: Vec<Ty> = ins.iter().map(|e| e.ty.clone()).collect();
     let tys = out_types(op, &in_tys, &p.sources)?;
-    let mk = |ty: &Ty, ord: Ord_, card: Card| EdgeInfo { ty: ty.clone(), ord, card }.norm();
+    let mk = |ty: &Ty, ord: Ord_, card: Card| EdgeInfo { ty: ty.clone(), ord, card, empty: false }.norm();
     let seq = |k: usize| -> Result<(), String> {
         if ins[k].ord == Ord_::Seq {
             Ok(())
@@ -199,7 +201,12 @@ pub fn node_out(p: &Prog, idx: usize, op: &Op, ins: &[EdgeInfo]) -> Result<Vec<E
     use Card::*;
     use Ord_::*;
     let out = match op {
-        Op::SrcStream { .. } | Op::SrcIter { .. } => vec![mk(&tys[0], Seq, Many)],
+        Op::SrcStream { .. } => vec![mk(&tys[0], Seq, Many)],
+        Op::SrcIter { items, .. } => {
+            let mut e = mk(&tys[0], Seq, Many);
+            e.empty = items.is_empty();
+            vec![e]
+        }
         Op::Map(_) | Op::Inspect | Op::Identity { .. } | Op::Handoff => {
             vec![mk(&tys[0], ins[0].ord, ins[0].card)]
         }
@@ -245,8 +252,13 @@ pub fn node_out(p: &Prog, idx: usize, op: &Op, ins: &[EdgeInfo]) -> Result<Vec<E
         Op::Unzip => tys.iter().map(|t| mk(t, ins[0].ord, ins[0].card)).collect(),
         Op::Partition { .. } => tys.iter().map(|t| mk(t, ins[0].ord, weaken(ins[0].card))).collect(),
         Op::Union { n } => {
+            // "Each input sequence is a subsequence of the output": when all inputs but one are
+            // statically empty the output order is that of the remaining input.
+            let live: Vec<&EdgeInfo> = ins.iter().filter(|e| !e.empty).collect();
             if *n == 1 {
                 vec![mk(&tys[0], ins[0].ord, ins[0].card)]
+            } else if live.len() == 1 {
+                vec![mk(&tys[0], live[0].ord, live[0].card)]
             } else {
                 vec![mk(&tys[0], Bag, Many)]
             }
@@ -275,7 +287,14 @@ pub fn node_out(p: &Prog, idx: usize, op: &Op, ins: &[EdgeInfo]) -> Result<Vec<E
             vec![mk(&tys[0], Seq, Many)]
         }
         Op::Join { .. } | Op::CrossJoin { .. } | Op::JoinMultisetHalf { .. } => vec![mk(&tys[0], Bag, Many)],
-        Op::JoinFused { lhs, rhs, .. } => {
+        Op::JoinFused { lhs, rhs, pers } => {
+            if lhs.is_none() && rhs.is_some() && pers.len() == 2 && pers[0] != pers[1] {
+                // join_fused_rhs "is identical to join_fused_lhs except that it is the right hand
+                // side that is fused": whether the two persistence arguments follow the ports (as
+                // documented for join) or are mirrored with the sides is not stated; the in-repo
+                // test relies on the mirrored reading. Not modelled.
+                return Err("join_fused_rhs with two different persistence arguments is outside the documented domain".into());
+            }
             if lhs.as_ref().map(|a| !a.commutative()).unwrap_or(false) {
                 seq(0)?;
             }
